@@ -804,7 +804,7 @@ func TestVerifC18(t *testing.T) {
 	}
 	r := verifkit.Start(t, "C18", "fsbinlog")
 	defer r.Finish()
-	r.SetRule("case = one oracle evaluation on (generated log, fault): full replay, writer reopen, resume from a committed (offset, meta), cut of the last chunk at a byte, bit flip before a CRC record, constructed interrupted rotation, SIGKILL of a writer child at a verifhook point or random instant, strace'd commit marker. Logs: PRNG payload sizes 0..150 KB, chunk sizes 200 B..240 KB or none, 1-3 writer sessions, Append/AppendASAP. Non-trivial = at least one event lies before the fault / resume point and one behind or at it; distinct = distinct (log id, fault kind, position).")
+	r.SetRule("case = one oracle evaluation on (generated log, fault): full replay, writer reopen, resume from a committed (offset, meta), cut of the last chunk at a byte, shutdown racing with 1-4 appenders, bit flip before a CRC record, constructed interrupted rotation, SIGKILL of a writer child at a verifhook point or random instant, strace'd commit marker. Logs: PRNG payload sizes 0..150 KB, chunk sizes 200 B..240 KB or none, 1-3 writer sessions, Append/AppendASAP. Non-trivial = at least one event lies before the fault / resume point and one behind or at it; distinct = distinct (log id, fault kind, position).")
 	if err := os.Chdir(r.TmpDir); err != nil {
 		t.Fatalf("chdir %s: %v", r.TmpDir, err)
 	}
@@ -824,6 +824,7 @@ func TestVerifC18(t *testing.T) {
 		}
 	})
 	c18Directed(r)
+	c18ShutdownPart(r)
 	t1 := time.Now()
 	c18CrashPart(r)
 	t2 := time.Now()
